@@ -171,9 +171,9 @@ def exhaustive_cases():
 def _cases(ctx):
     yield from D.corpus_cases("C19")
     yield from exhaustive_cases()
-    for _ in range(ctx.budget(900, 25000)):
+    for _ in range(ctx.budget(700, 25000)):
         yield D.gen_disp(ctx.rng, raising=True)
-    for _ in range(ctx.budget(150, 3000)):
+    for _ in range(ctx.budget(110, 3000)):
         yield D.gen_re(ctx.rng, raising=True)
 
 
